@@ -39,7 +39,7 @@ REPLAY_DIR = os.path.join(VERIF, "replays")
 KNOWN = os.path.join(VERIF, "known_findings.json")
 
 TIER_TIMEOUT = {"quick": 420, "thorough": 2400}      # per harness, seconds
-MEM_LIMIT_KB = 14 * 1024 * 1024                      # per process (ulimit -v)
+MEM_LIMIT_KB = int(os.environ.get("VERIF_CBMC_MEM_GB", "12")) * 1024 * 1024   # per cbmc process (RSS, watchdog)
 
 REUSABLE_MODEL = r'''
 // ---- inserted by /verif/check.py (cfg(kani) only): model of `reusable!` ----
@@ -148,7 +148,29 @@ def load_registry():
 # --------------------------------------------------------------------------
 # shadow crate
 # --------------------------------------------------------------------------
-def make_shadow(tmp):
+def file_needs(rel):
+    txt = open(os.path.join(HARNESS_DIR, rel)).read()
+    out = []
+    for m in re.finditer(r"^//@file-needs:(.*)$", txt, re.M):
+        out += [x.strip() for x in m.group(1).split(",") if x.strip()]
+    return out
+
+
+def closure_of(files):
+    """Harness files to include: the given ones plus their `//@file-needs:` closure.  Only
+    these are appended to the shadow sources, so a harness file that no longer compiles
+    against an edited /repo cannot disturb the checks of other properties."""
+    todo, seen = list(files), []
+    while todo:
+        f = os.path.normpath(todo.pop())
+        if f in seen:
+            continue
+        seen.append(f)
+        todo += file_needs(f)
+    return sorted(seen)
+
+
+def make_shadow(tmp, only_files=None):
     sh = os.path.join(tmp, "shadow")
     os.makedirs(sh)
     shutil.copytree(os.path.join(REPO, "src"), os.path.join(sh, "src"))
@@ -159,13 +181,17 @@ def make_shadow(tmp):
     # harness copies live inside the shadow so that replays can be appended
     hdst = os.path.join(sh, "verif_harness")
     shutil.copytree(HARNESS_DIR, hdst)
-    for rel in harness_files():
+    for rel in (closure_of(only_files) if only_files else harness_files()):
         src = os.path.join(sh, "src", rel)
         if not os.path.exists(src):
             raise SystemExit("UNDECIDED: %s no longer exists in /repo/src" % rel)
         with open(src, "a") as fh:
+            nat = os.path.join(hdst, "native", rel)
+            if os.path.exists(nat):
+                fh.write('\n#[cfg(test)]\n#[allow(unused, clippy::all, clippy::pedantic, clippy::nursery)]\n'
+                         'mod verif_native {\n    include!("%s");\n}\n' % nat)
             fh.write('\n#[cfg(kani)]\n#[allow(unused, clippy::all, clippy::pedantic, clippy::nursery)]\n'
-                     'mod verif_kani {\n    include!("%s");\n}\n' % os.path.join(hdst, rel))
+                     'pub(crate) mod verif_kani {\n    include!("%s");\n}\n' % os.path.join(hdst, rel))
     lib = os.path.join(sh, "src", "lib.rs")
     s = open(lib).read()
     anchor = "pub(crate) mod arrayutils;"
@@ -192,16 +218,60 @@ def kani_env():
     return env
 
 
+def _descendants(pid):
+    out = subprocess.run(["ps", "-eo", "pid=,ppid=,rss=,comm="], capture_output=True, text=True).stdout
+    rows = []
+    for ln in out.split("\n"):
+        f = ln.split(None, 3)
+        if len(f) == 4:
+            rows.append((int(f[0]), int(f[1]), int(f[2]), f[3]))
+    kids = {}
+    for r in rows:
+        kids.setdefault(r[1], []).append(r)
+    res, stack = [], [pid]
+    while stack:
+        for r in kids.get(stack.pop(), []):
+            res.append(r)
+            stack.append(r[0])
+    return res
+
+
 def run(cmd, cwd, logf, timeout=None, limit_mem=True):
-    pre = "ulimit -v %d; " % MEM_LIMIT_KB if limit_mem else ""
-    sh = pre + "exec " + " ".join("'%s'" % c.replace("'", "'\\''") for c in cmd)
+    """Runs cmd with output to logf.  A watchdog kills any descendant `cbmc` whose resident
+    set exceeds MEM_LIMIT_KB (an `ulimit -v` would also hit kani-driver, which buffers the
+    solver output of all parallel harnesses); Kani then reports that harness as failed
+    without results and the runner records it as undecided."""
+    import threading
     with open(logf, "w") as fh:
+        p = subprocess.Popen(cmd, cwd=cwd, stdout=fh, stderr=subprocess.STDOUT, env=kani_env(),
+                             start_new_session=True)
+        stop = threading.Event()
+
+        def watch():
+            while not stop.wait(4.0):
+                try:
+                    for pid, _pp, rss, comm in _descendants(p.pid):
+                        if limit_mem and comm.startswith("cbmc") and rss > MEM_LIMIT_KB:
+                            os.kill(pid, 9)
+                            KILLED_OOM.append(pid)
+                except Exception:
+                    pass
+        th = threading.Thread(target=watch, daemon=True)
+        th.start()
         try:
-            p = subprocess.run(["bash", "-c", sh], cwd=cwd, stdout=fh, stderr=subprocess.STDOUT,
-                               env=kani_env(), timeout=timeout)
-            return p.returncode
+            rc = p.wait(timeout=timeout)
         except subprocess.TimeoutExpired:
-            return 124
+            try:
+                os.killpg(p.pid, 9)
+            except Exception:
+                pass
+            p.wait()
+            rc = 124
+        stop.set()
+        return rc
+
+
+KILLED_OOM = []
 
 
 def repo_state():
@@ -346,6 +416,28 @@ def native_replay_batch(sh, reg_by_name, tests_by_harness, logdir):
     return res
 
 
+def run_native_oracle(sh, meta, logdir):
+    """Runs the native property-level oracle test named by `//@ oracle:` (a #[test] in
+    /verif/harness/native/<module>.rs, compiled into the shadow crate).  Returns
+    True if the oracle test FAILS (= the property violation is reproduced through the
+    public API), False if it passes, None if it did not run."""
+    name = meta["oracle"]
+    logf = os.path.join(logdir, "oracle_%s.log" % name)
+    tdir = os.path.join(CACHE, "native-target")
+    if TD_GROUP:
+        if not os.path.isdir(tdir + "-" + TD_GROUP) and os.path.isdir(tdir):
+            subprocess.run(["cp", "-a", tdir, tdir + "-" + TD_GROUP])
+        tdir = tdir + "-" + TD_GROUP
+    cmd = ["env", "CARGO_TARGET_DIR=" + tdir, "cargo", "test", "--offline", "--lib", "--features", "decode",
+           "--", "verif_native::" + name, "--test-threads", "2"]
+    run(cmd, sh, logf, timeout=1800, limit_mem=False)
+    txt = open(logf).read()
+    m = re.search(r"test result: \w+\. (\d+) passed; (\d+) failed", txt)
+    if not m or int(m.group(1)) + int(m.group(2)) == 0:
+        return None, logf
+    return int(m.group(2)) > 0, logf
+
+
 def load_known():
     if not os.path.exists(KNOWN):
         return {"findings": [], "fixed": []}
@@ -441,7 +533,7 @@ TD_GROUP = ""
 def run_property(prop, tier, seed, sel, tmp, logdir, args, t0):
     global TD_GROUP
     TD_GROUP = prop
-    sh = make_shadow(tmp)
+    sh = make_shadow(tmp, sorted({m["file"] for m in sel}))
     timeout_s = args.timeout or TIER_TIMEOUT[tier]
     known = load_known()
     # group by cbmc_args (one cargo-kani invocation per distinct argument set)
@@ -561,6 +653,12 @@ def run_property(prop, tier, seed, sel, tmp, logdir, args, t0):
         candidates.append((m, r, rec))
         records.append(rec)
 
+    if candidates and os.environ.get("VERIF_NO_REPLAY"):
+        for m, r, rec in candidates:
+            rec["verdict"] = "failed in the solver (replay disabled by VERIF_NO_REPLAY): " + "; ".join(
+                "%s (%s:%s)" % (c["description"], c["file"], c["line"]) for c in r["failed_checks"][:6])
+            undecided.append(m["name"])
+        candidates = []
     if candidates:
         MAX_REPLAY = int(os.environ.get("VERIF_MAX_REPLAY", "3"))
         cands = sorted(candidates, key=lambda c: c[1]["duration_s"])
@@ -569,7 +667,31 @@ def run_property(prop, tier, seed, sel, tmp, logdir, args, t0):
         # (counterexample extraction costs up to 20x the plain check because of the trace)
         tests_by, rep = {}, {}
         done = []
-        for cand in todo:
+        oracle_done = []
+        for cand in [c for c in todo if c[0].get("oracle")]:
+            todo.remove(cand)
+            m, r, rec = cand
+            res, olog = run_native_oracle(sh, m, logdir)
+            oracle_done.append(cand)
+            os.makedirs(os.path.join(REPLAY_DIR, prop), exist_ok=True)
+            rpath = os.path.join(REPLAY_DIR, prop, m["name"] + ".rs")
+            with open(rpath, "w") as fh:
+                fh.write("// harness %s (property %s) failed in the solver on %s\n" % (m["name"], prop, repo_state()))
+                fh.write("// failed checks: %s\n" % json.dumps(r["failed_checks"][:8]))
+                fh.write("// the harness uses code stubs, so the violation is confirmed by the native property-level oracle\n")
+                fh.write("// test `%s` in /verif/harness/native/%s (fails = reproduced): %s\n" % (m["oracle"], m["file"], res))
+                fh.write("//@replay-harness: %s\n//@replay-oracle: %s\n" % (m["name"], m["oracle"]))
+                if res:
+                    mm = re.search(r"(panicked at [^\n]*\n[^\n]*)", open(olog).read())
+                    fh.write("// %s\n" % (mm.group(1).replace("\n", " | ") if mm else ""))
+            if res:
+                rec["verdict"] = "VIOLATION (solver counterexample; property-level native oracle `%s` fails on the real code)" % m["oracle"]
+                violations.append((m, rpath, r["failed_checks"]))
+            else:
+                rec["verdict"] = "failed in the solver but the native oracle `%s` %s (harness/stub suspect)" % (
+                    m["oracle"], "passes" if res is False else "did not run")
+                undecided.append(m["name"])
+        for cand in ([] if violations else todo):
             tb = extract_playback_batch(sh, [cand[0]], target_dir_for(TD_GROUP), logdir, timeout_s, args.jobs)
             done.append(cand)
             if tb:
@@ -667,7 +789,7 @@ def setup(reg):
     os.makedirs(CACHE, exist_ok=True)
     tmp = tempfile.mkdtemp(prefix="flacenc-verif-setup-", dir=os.environ.get("VERIF_TMP", "/var/tmp"))
     try:
-        sh = make_shadow(tmp)
+        sh = make_shadow(tmp, ["bitsink.rs"])
         logdir = os.path.join(tmp, "logs")
         os.makedirs(logdir)
         m = reg["c11_constructors"]
@@ -694,10 +816,25 @@ def replay_stored(path, reg):
         log("unknown harness in replay file")
         return 2
     meta = reg[m.group(1)]
+    if "//@replay-oracle:" in txt:
+        tmp = tempfile.mkdtemp(prefix="flacenc-verif-replay-", dir=os.environ.get("VERIF_TMP", "/var/tmp"))
+        try:
+            sh = make_shadow(tmp, [meta["file"]])
+            logdir = os.path.join(tmp, "logs")
+            os.makedirs(logdir)
+            res, olog = run_native_oracle(sh, meta, logdir)
+            log("native oracle %s: %s" % (meta["oracle"], "REPRODUCED (oracle test fails)" if res else ("passes" if res is False else "did not run")))
+            if res:
+                mm = re.search(r"(panicked at [^\n]*\n[^\n]*)", open(olog).read())
+                if mm:
+                    log("    " + mm.group(1).replace("\n", " | "))
+            return 1 if res else 0
+        finally:
+            shutil.rmtree(tmp, ignore_errors=True)
     tests = re.findall(r"((?:///.*\n)*#\[test\]\nfn kani_concrete_playback_.*?\n}\n)", txt, re.S)
     tmp = tempfile.mkdtemp(prefix="flacenc-verif-replay-", dir=os.environ.get("VERIF_TMP", "/var/tmp"))
     try:
-        sh = make_shadow(tmp)
+        sh = make_shadow(tmp, [meta["file"]])
         logdir = os.path.join(tmp, "logs")
         os.makedirs(logdir)
         rep = native_replay_batch(sh, {meta["name"]: meta}, {meta["name"]: tests}, logdir)
